@@ -14,6 +14,7 @@ object in the state 'positioned directly at index k' (reported index k,
 exactly one read_tables, entered at _fullpos[k], reported time/step those of
 k), where k is what the property prescribes for the action.
 """
+import types
 import numpy as np
 import z3
 from vx import sym, loader, report
@@ -347,6 +348,386 @@ def task_sequence(actions, n):
     tr = report.summarize(name, res, failures, samples, extra=dict(distinct_obligations=len(distinct), obligations_reached=reached[0]))
     if reached[0] == 0 and not tr.get('error'): tr['error'] = 'vacuous: no obligation reached'
     return tr
+
+
+# ---------------------------------------------------------------------------
+# FILE-LEVEL TIER (built on the C06 machinery): the real navigation on the real reader over a
+# line file of a shipped listing whose chosen rows carry symbolic digits / signs in EVERY
+# result set; oracle = a second reader opened fresh on the same lines and positioned directly.
+
+import os
+import itertools
+from fractions import Fraction
+
+FILE_MAXFAIL = int(os.environ.get('C07_MAXFAIL', '8') or 8)
+
+
+def _c06():
+    from harness import C06
+    return C06
+
+
+def late_tables(P):
+    """full result sets (index among the full ones) that print a table the first one does not have"""
+    from harness import c06_common as c6
+    raw, sets, bounds, fullk = P['raw'], P['sets'], P['bounds'], P['fullk']
+    def sigs(ik):
+        return set(s for _, s in c6.table_spans(raw, bounds[ik], bounds[ik + 1]))
+    base = sigs(fullk[0])
+    return [j for j, ik in enumerate(fullk) if sigs(ik) - base]
+
+
+def nearest_first(xs, a):
+    """the property's oracle for time= / step=: index of the value nearest to a, the first on a tie (exact arithmetic)"""
+    xs = [Fraction(x) for x in xs]; a = Fraction(a)
+    best = min(abs(x - a) for x in xs)
+    return [k for k, x in enumerate(xs) if abs(x - a) == best][0]
+
+
+def alphabet(P):
+    """the concrete navigation actions for this file: list of dict(label, kind, arg)"""
+    C06 = _c06()
+    sets, fullk = P['sets'], P['fullk']
+    n = len(fullk)
+    times = [sets[ik]['time'] for ik in fullk]
+    steps = [sets[ik]['step'] for ik in fullk]
+    A = [dict(label=x, kind=x, arg=None) for x in ('first', 'last', 'next', 'prev')]
+    seen = set()
+    for i in (0, n - 1, n // 2, 1):
+        if 0 <= i < n and i not in seen: seen.add(i); A.append(dict(label='index', kind='index', arg=i))
+    seen = set()
+    for i in (-1, -n, -(n // 2) - 1):
+        if -n <= i < 0 and i not in seen: seen.add(i); A.append(dict(label='index-neg', kind='index', arg=i))
+    mono_t = all(a < b for a, b in zip(times, times[1:]))
+    if mono_t:
+        for k in sorted(set([0, n // 2, n - 1])): A.append(dict(label='time-exact', kind='time', arg=times[k]))
+        for k in sorted(set([0, n - 2])) if n >= 2 else ():
+            a, b = times[k], times[k + 1]
+            A.append(dict(label='time-between-low', kind='time', arg=a + 0.25 * (b - a)))
+            A.append(dict(label='time-between-high', kind='time', arg=a + 0.75 * (b - a)))
+            m = a + 0.5 * (b - a)
+            # a tie only where float arithmetic is exact (else the real code's rounded distances decide, not the property)
+            if Fraction(m) * 2 == Fraction(a) + Fraction(b) and Fraction(m - a) == Fraction(m) - Fraction(a) and Fraction(b - m) == Fraction(b) - Fraction(m):
+                A.append(dict(label='time-tie', kind='time', arg=m))
+        A.append(dict(label='time-before', kind='time', arg=times[0] - max(1.0, abs(times[0]))))
+        A.append(dict(label='time-after', kind='time', arg=times[-1] * 2 + 1.0))
+    if all(s is not None for s in steps) and all(a < b for a, b in zip(steps, steps[1:])):
+        for k in sorted(set([0, n // 2, n - 1])): A.append(dict(label='step-exact', kind='step', arg=steps[k]))
+        for k in sorted(set([0, n - 2])) if n >= 2 else ():
+            a, b = steps[k], steps[k + 1]
+            if b - a > 2:
+                A.append(dict(label='step-between-low', kind='step', arg=a + 1))
+                A.append(dict(label='step-between-high', kind='step', arg=b - 1))
+            if (a + b) % 2 == 0: A.append(dict(label='step-tie', kind='step', arg=(a + b) // 2))
+        A.append(dict(label='step-before', kind='step', arg=steps[0] - 1))
+        A.append(dict(label='step-after', kind='step', arg=steps[-1] + 5))
+    # history() with valid selections (C06's shapes): single tuple on the first table, a mixed list over the first two
+    tn = P['tablenames']
+    v1 = C06.variants(P, (tn[0],))
+    A.append(dict(label='history', kind='history', arg=dict(items=v1[0][2], form=v1[0][1], short=True)))
+    seq2 = tuple(tn[:2]) if len(tn) > 1 else (tn[0],)
+    vm = [v for v in C06.variants(P, seq2) if v[0].startswith('mixed')][0]
+    A.append(dict(label='history', kind='history', arg=dict(items=vm[2], form='list', short=not P['has_short'])))
+    return A, times, steps
+
+
+def expected_after(k, act, n, times, steps):
+    """index the property prescribes after `act` from index k, and what next/prev must return"""
+    kind, arg = act['kind'], act['arg']
+    if kind == 'first': return 0, None
+    if kind == 'last': return n - 1, None
+    if kind == 'next': return min(k + 1, n - 1), k < n - 1
+    if kind == 'prev': return max(k - 1, 0), k > 0
+    if kind == 'index': return arg % n, None
+    if kind == 'time': return nearest_first(times, arg), None
+    if kind == 'step': return nearest_first(steps, arg), None
+    return k, None
+
+
+def file_sequences(P, tier, skip=None):
+    """the navigation sequences to run on this file: list of dict(start, acts)"""
+    A, times, steps = alphabet(P)
+    n = len(P['fullk'])
+    C06 = _c06()
+    starts = C06.starts_for(P, tier)
+    out = []
+    def add(s0, acts): out.append(dict(start=s0, acts=list(acts)))
+    # the F2 class first: result sets that print a table absent at the first time, reached in different orders
+    for kk in late_tables(P):
+        ix = lambda i: dict(label='index', kind='index', arg=i)
+        nx, pv, fi, la = [dict(label=x, kind=x, arg=None) for x in ('next', 'prev', 'first', 'last')]
+        if kk > 0:
+            add(kk - 1, [ix(kk)]); add(kk - 1, [nx]); add(0, [ix(kk)]); add(kk, [ix(kk - 1), ix(kk)]); add(kk, [pv, nx]); add(kk, [fi, ix(kk)])
+            add(kk, [ix(kk - 1), dict(label='index-neg', kind='index', arg=kk - n)])
+        if kk == n - 1: add(0, [la]); add(max(kk - 1, 0), [la]); add(kk, [fi, la])
+        if kk < n - 1: add(kk + 1, [ix(kk)]); add(kk + 1, [pv])
+    # single actions
+    for i, a in enumerate(A):
+        ss = starts if (tier == 'thorough' or a['kind'] in ('next', 'prev')) else [starts[i % len(starts)], starts[(i + 1) % len(starts)]]
+        for s0 in sorted(set(ss)): add(s0, [a])
+    # pairs / triples: by label, arguments of a label rotating
+    bylab = {}
+    for a in A: bylab.setdefault(a['label'], []).append(a)
+    labels = list(bylab)
+    base = ['first', 'last', 'next', 'prev', 'index', 'index-neg', 'time', 'step', 'history']
+    rot = [0]
+    def pick(lab):
+        if lab in bylab: c = bylab[lab]
+        else: c = [a for a in A if a['label'].startswith(lab + '-')]
+        if not c: return None
+        rot[0] += 1
+        return c[rot[0] % len(c)]
+    k = 0
+    pairs = list(itertools.product(base, repeat=2)) if tier == 'quick' else list(itertools.product(labels, repeat=2))
+    for la_, lb_ in pairs:
+        a, b = pick(la_), pick(lb_)
+        if a is None or b is None: continue
+        add(starts[k % len(starts)], [a, b]); k += 1
+    if tier == 'thorough':
+        for tr in itertools.product(base, repeat=3):
+            acts = [pick(x) for x in tr]
+            if any(x is None for x in acts): continue
+            add(starts[k % len(starts)], acts); k += 1
+    return out
+
+
+def _apply(lst, act):
+    kind, arg = act['kind'], act['arg']
+    if kind == 'first': lst.first()
+    elif kind == 'last': lst.last()
+    elif kind == 'next': return lst.next()
+    elif kind == 'prev': return lst.prev()
+    elif kind == 'index': lst.index = arg
+    elif kind == 'time': lst.time = arg
+    elif kind == 'step': lst.step = arg
+    elif kind == 'history':
+        sel = [x['arg'] for x in arg['items']]
+        if arg['form'] == 'tuple': sel = sel[0]
+        lst.history(sel, short=arg['short'])
+    return None
+
+
+def _act_json(act):
+    if act['kind'] == 'history':
+        a = act['arg']
+        return [act['label'], 'history', dict(selection=[list(x['arg']) for x in a['items']], form=a['form'], short=a['short'])]
+    return [act['label'], act['kind'], act['arg']]
+
+
+def task_file_nav(rel, tier, part=0, nparts=1, skip=None, maxseq=None):
+    C06 = _c06()
+    from harness import c06_common as c6
+    from harness import C05 as c05
+    ld = C06._load()
+    P = C06.prepare(rel)
+    raw, sets, fullk, tables, oracle = P['raw'], P['sets'], P['fullk'], P['tables'], P['oracle']
+    n = len(fullk)
+    skip = list(skip or [])
+    tnames = [t for t in P['tablenames'] if t not in skip]
+    name = 'file/%s%s[%d/%d]' % (rel, '/skip=' + '+'.join(skip) if skip else '', part + 1, nparts)
+    SF = C06.symbolic_file(P, headers=False)
+    lines, cons, symlines = SF['lines'], SF['cons'], SF['symlines']
+    allseq = file_sequences(P, tier)
+    if maxseq is not None and len(allseq) > maxseq:
+        nspecial = sum(1 for _ in late_tables(P)) * 12
+        head, tail = allseq[:nspecial], allseq[nspecial:]
+        stride = max(1, -(-len(tail) // max(1, maxseq - len(head))))
+        allseq = head + tail[::stride]
+    seqs = [s for i, s in enumerate(allseq) if i % nparts == part]
+    A_, times, steps = alphabet(P)
+    budget = c6.budget(len(raw), len(sets))
+    failures, samples, distinct = [], [], set()
+    counters = dict(sequences=0, actions=0, fresh=0, reached=0, unattributed=0, cells=0)
+    base_key = 'file/%s%s' % (rel, '/skip=' + '+'.join(skip) if skip else '')
+
+    def open_reader():
+        f = c6.LineFile(lines)
+        ld.t2listing.io = types.SimpleNamespace(open=lambda *a, **k: f)
+        return ld.t2listing.t2listing(P['path'], skip_tables=list(skip)), f
+
+    def h(c):
+        for con in cons: c.add(con)
+        nfail = [0]
+
+        def fail(seqlab, clause, what, log, formula=False, model=None):
+            key = '%s/%s/%s' % (base_key, seqlab, clause)
+            if model is None:
+                c.stats['obligations'] += 1
+                r, _ = c.solve(z3.BoolVal(True))
+                if r != 'sat':
+                    c.stats['ob_unsat' if r == 'unsat' else 'ob_unknown'] += 1
+                    return r
+                c.stats['ob_sat'] += 1
+            nfail[0] += 1
+            failures.append(dict(key=key, what='%s: %s' % (rel, what),
+                                 replay=dict(kind='file', file=os.path.join('tests', 'listing', rel), skip_tables=skip,
+                                             substitutions=SF['subs_for'](model, list(symlines)), clause=clause,
+                                             actions=[_act_json(a) for a in log])))
+            return 'sat'
+
+        # ---- the oracle: a reader opened fresh on the same lines, positioned directly at k
+        fresh = {}
+        def fresh_at(k):
+            if k in fresh: return fresh[k]
+            counters['fresh'] += 1
+            log = [dict(label='index', kind='index', arg=k)]
+            try:
+                R, fR = open_reader()
+                fR.arm(budget)
+                R.index = k
+                fR.disarm()
+            except sym.EngineAbort: raise
+            except BaseException as ex:
+                if not isinstance(ex, (Exception, c6.NonTermination)): raise
+                fail('fresh', 'no-exception', 'a fresh reader positioned at index %d raised %s' % (k, type(ex).__name__), log)
+                fresh[k] = None
+                return None
+            snap = dict(index=R.index, time=R.time, step=R.step, tables={tn: R._table[tn]._data.copy() for tn in R._tablenames},
+                        names={tn: list(R._table[tn].row_name) for tn in R._tablenames}, order=list(R._tablenames))
+            ik = fullk[k]
+            ok = True
+            if not (R.index == k and float(R.time) == sets[ik]['time'] and (sets[ik]['step'] is None or R.step == sets[ik]['step'])):
+                fail('fresh', 'time-step', 'a fresh reader positioned at index %d reports index/time/step %r/%r/%r, the file prints %r/%r' % (
+                    k, R.index, R.time, R.step, sets[ik]['time'], sets[ik]['step']), log); ok = False
+            # both readers wrong the same way would go unnoticed: every symbolic cell == the printed cells of result set k
+            for tn in R._tablenames:
+                for r in tables[tn]['rows']:
+                    if oracle.get((tn, r, ik)) is None: continue
+                    hit = C06.printed_check(c, P, SF, tn, r, ik, R._table[tn][r], distinct, counters)
+                    counters['reached'] += len(tables[tn]['cols'])
+                    if hit is not None:
+                        fail('fresh', 'printed-value', 'fresh reader at index %d: table %s row %d %s differs from the number printed at that result set' % (
+                            k, tn, r, hit[0]), log, model=hit[1])
+                        ok = False; break
+                if not ok: break
+            fresh[k] = snap
+            return snap
+
+        def compare(lst, snap, seqlab, log, what0):
+            """index / time / step and EVERY cell of EVERY table equal those of the fresh reader"""
+            if lst.time is not snap['time'] and not (lst.time == snap['time']) is True or \
+               lst.step is not snap['step'] and not (lst.step == snap['step']) is True:
+                fail(seqlab, 'time-step', '%s: time/step %r/%r, a fresh reader at that index shows %r/%r' % (what0, lst.time, lst.step, snap['time'], snap['step']), log)
+                return False
+            if list(lst._tablenames) != snap['order'] or any(list(lst._table[tn].row_name) != snap['names'][tn] for tn in snap['order']):
+                fail(seqlab, 'tables', '%s: tables / row names differ from those of a fresh reader' % what0, log); return False
+            items = []
+            for tn in snap['order']:
+                a, b = lst._table[tn]._data, snap['tables'][tn]
+                if a.shape != b.shape:
+                    fail(seqlab, 'tables', '%s: table %s has another shape than in a fresh reader' % (what0, tn), log); return False
+                ncol = a.shape[1] if a.ndim == 2 else 1
+                for i, (u, v) in enumerate(zip(a.flat, b.flat)):
+                    if u is v: continue
+                    if isinstance(u, SReal) or isinstance(v, SReal):
+                        if any(isinstance(x, float) and x != x for x in (u, v)):
+                            fail(seqlab, 'tables', '%s: table %s row %d is nan in one reader' % (what0, tn, i // ncol), log); return False
+                        items.append((sym.lift_real(u) == sym.lift_real(v), '%s:%d:%d' % (tn, i // ncol, i % ncol)))
+                    elif not (u == v):
+                        fail(seqlab, 'tables', '%s: table %s row %d column %d shows %r, a fresh reader positioned there shows %r' % (
+                            what0, tn, i // ncol, i % ncol, u, v), log)
+                        return False
+                counters['cells'] += a.size
+            for f_, lab in items:
+                sf = z3.simplify(f_)
+                if not z3.is_true(sf): distinct.add(('cell', sf.hash()))
+            counters['reached'] += 3
+            hit = C06.decide(c, items + [(True, 'index'), (True, 'time-step'), (True, 'tables-concrete-cells')])
+            if hit is not None:
+                tn, ri, ci = hit[0].split(':')
+                fail(seqlab, 'tables', '%s: table %s row %s column %s differs from what a fresh reader positioned there shows' % (what0, tn, ri, ci), log, model=hit[1])
+                return False
+            return True
+
+        lst = None
+        log = []
+        kexp = None
+        for sq in seqs:
+            if nfail[0] >= FILE_MAXFAIL: break
+            counters['sequences'] += 1
+            acts = list(sq['acts'])
+            if lst is None:
+                try:
+                    lst, f = open_reader()
+                except sym.EngineAbort: raise
+                except Exception as ex:
+                    fail('open', 'no-exception', 't2listing() raised %s: %s' % (type(ex).__name__, c05._extext(ex)), []); break
+                log = []; kexp = 0
+            if kexp != sq['start']:
+                acts = [dict(label='index', kind='index', arg=sq['start'], positioning=True)] + acts
+            done = []
+            for act in acts:
+                counters['actions'] += 1
+                log.append(act)
+                if not act.get('positioning'): done.append(act['label'])
+                seqlab = '>'.join(done) if done else 'index'
+                what0 = 'after %s from index %s' % (' > '.join('%s%s' % (a['label'], '' if a['arg'] is None or a['kind'] == 'history' else '=%r' % (a['arg'],)) for a in acts[:len(done) + (len(acts) - len(sq['acts']))]), kexp)
+                want, moved_want = expected_after(kexp, act, n, times, steps)
+                f.arm(budget)
+                err = None
+                try:
+                    with C06._Alarm(120):
+                        moved = _apply(lst, act)
+                except c6.NonTermination as ex: err = ('terminates', 'does not return: %s' % ex)
+                except sym.EngineAbort:
+                    f.disarm(); raise
+                except Exception as ex: err = ('no-exception', 'raised %s: %s' % (type(ex).__name__, c05._extext(ex)))
+                f.disarm()
+                bad = False
+                if err is not None:
+                    fail(seqlab, err[0], '%s: %s' % (what0, err[1]), log); bad = True
+                elif not (isinstance(lst.index, (int, np.integer)) and 0 <= lst.index < n and int(lst.index) == want):
+                    fail(seqlab, 'index', '%s: reported index %r, the property prescribes %d (of %d)' % (what0, lst.index, want, n), log); bad = True
+                elif moved_want is not None and bool(moved) != moved_want:
+                    fail(seqlab, 'moved', '%s: %s() returned %r' % (what0, act['kind'], moved), log); bad = True
+                else:
+                    snap = fresh_at(want)
+                    if snap is None or not compare(lst, snap, seqlab, log, what0): bad = True
+                if bad:
+                    lst = None      # reopen for the next sequence
+                    break
+                kexp = want
+        if not samples:
+            samples.append(dict(task=name, simulator=P['simulator'], result_sets=len(sets), full=n, tables=tnames, sequences=len(seqs),
+                                example=[_act_json(a)[:2] + [repr(a['arg'])[:40]] for a in (seqs[len(seqs) // 2]['acts'] if seqs else [])]))
+        r, _ = c.reachable()
+        if r != 'sat': return 'unreachable'
+        return 'checked' if counters['reached'] else 'nothing-reached'
+
+    res = sym.explore(h, sym.Ctx(timeout_ms=10000), max_paths=3, profile_repo=(tier == 'quick' and part == 0 and len(raw) < 1500))
+    extra = dict(distinct_obligations=len(distinct), simulator=P['simulator'], sequences=counters['sequences'], actions=counters['actions'],
+                 fresh_readers=counters['fresh'], cells_compared=counters['cells'], symbolic_lines=len(symlines), late_tables=late_tables(P),
+                 file_tier=True)
+    if not counters['reached']: extra['vacuous'] = True
+    seen, keep = {}, []
+    for fl in failures:
+        seen[fl['key']] = seen.get(fl['key'], 0) + 1
+        if seen[fl['key']] <= 2: keep.append(fl)
+    return report.summarize(name, res, keep, samples, extra=extra)
+
+
+FILE_QUICK = ('AUTOUGH2/2/case2.listing', 'AUTOUGH2/3/case3.listing', 'AUTOUGH2/4/case4.listing', 'AUTOUGH2/5/case5.listing',
+              'TOUGH2/2/rfp.listing', 'TOUGH2/8/OUTFILE', 'TOUGH2/11/case11.listing',
+              'TOUGH2-MP/6/OUTPUT_DATA', 'TOUGH2-MP/7/OUTPUT_DATA', 'TOUGH3/2/OUTPUT', 'TOUGHREACT/2/case2.out',
+              'TOUGHplus/1/case1.dat', 'TOUGHplus/4/t3T_out.dat')
+
+
+def file_tasks(tier):
+    from harness import c05_common as cc
+    C06 = _c06()
+    files = cc.listing_files(loader.REPO)
+    if tier == 'quick': files = [f for f in files if f.replace(os.sep, '/') in FILE_QUICK]
+    only = [x for x in os.environ.get('C07_FILES', '').split(',') if x]
+    if only: files = [f for f in cc.listing_files(loader.REPO) if any(x in f for x in only)]
+    tasks = []
+    for rel in files:
+        nlines = sum(1 for _ in open(os.path.join(loader.REPO, 'tests', 'listing', rel), 'rb'))
+        K, cap = (120000, 160) if tier == 'quick' else (1500000, 1100)
+        maxseq = max(24, min(cap, K * 8 // max(1, nlines)))
+        nparts = 1 if tier == 'quick' else max(1, min(4, maxseq // 300))
+        for part in range(nparts):
+            tasks.append((task_file_nav, dict(rel=rel, tier=tier, part=part, nparts=nparts, maxseq=maxseq)))
+    return tasks, files
 
 
 def run(tier, seed, rep):
